@@ -1,8 +1,8 @@
 (* C04 -- protocol violations are detected, reported once, and fail the connection.  Statements only. *)
-From Coq Require Import List NArith Bool.
+From Coq Require Import List NArith ZArith Bool.
 From Coq.Strings Require Import Byte.
 From Model Require Import Bytes Utf8 Frame Parser FrameParser Conn.
-From Proofs Require Import ConnFacts TraceFacts ViolationFacts GenTie.
+From Proofs Require Import ConnFacts TraceFacts ViolationFacts GenTie DeliveryFacts StreamViolation.
 From Gen Require Import GenFrame GenStatus.
 Import ListNotations.
 Open Scope N_scope.
@@ -63,6 +63,31 @@ Print Assumptions C04_one_protocol_error.
 Theorem C04_error_stops_the_stream : forall cf app c e, snd (raise_in_feed cf app c e) <> SOk.
 Proof. exact raise_in_feed_not_ok. Qed.
 Print Assumptions C04_error_stops_the_stream.
+
+(* no false alarm: a feed that returns normally has reported no ProtocolError -- for ANY application strategy, any input
+   bytes and any state (the only source of ProtocolError events is the error path, which never returns normally) *)
+Theorem C04_normal_feed_reports_no_error : forall cf app c d c',
+  feedf cf app c d = (c', SOk) -> perrors (k_tr c') = perrors (k_tr c).
+Proof. exact feed_ok_no_protocol_error. Qed.
+Print Assumptions C04_normal_feed_reports_no_error.
+
+(* the whole stream: a conforming frame list (any fragmentation, control frames anywhere, any length forms) followed by a
+   well-formed data frame in the wrong place -- a continuation frame with nothing to continue, or a new data frame while a
+   fragmented message is open -- followed by ANY bytes: the messages completed before the violation are delivered, exactly
+   one ProtocolError (critical = False) is reported, the feed fails (the session then disconnects), and neither the
+   violating frame nor anything after it produces a message event *)
+Theorem C04_violation_after_conforming_prefix : forall cf app, passive app -> zpos (c_ping_timeout cf) = None ->
+  forall fs lfs c open ms open' f lf rest,
+  idle c open -> data_head open -> Forall plain fs -> forms_ok fs lfs ->
+  ref_messages open fs = Some (ms, open') ->
+  plain f -> form_ok lf (blen (f_payload f)) = true ->
+  validate_err false (hdr_of f) (blen (f_payload f)) = false -> out_of_place open' f ->
+  let r := feedf cf app c (encode_all fs lfs ++ enc_frame f lf ++ rest) in
+  snd r <> SOk /\
+  msg_events (k_tr (fst r)) = rev (map ev_of ms) ++ msg_events (k_tr c) /\
+  perrors (k_tr (fst r)) = false :: perrors (k_tr c).
+Proof. exact violation_after_prefix. Qed.
+Print Assumptions C04_violation_after_conforming_prefix.
 
 Example C04_nonvacuous :
   header_violation false {| h_fin := true; h_r1 := false; h_r2 := false; h_r3 := false; h_op := 9; h_mask := false |} 126 /\
